@@ -13,8 +13,7 @@ package kernel
 //@ assume func crypto.CosiCommitNonce
 //@   modifies nothing
 //@   ensures result != nil
-//@ assume func (n *crypto.CosiNonce) Public
-//@   modifies nothing
+//@ -- (*crypto.CosiNonce).Public: contract of C12 (crypto/zz_contracts_c12_verif.go); its precondition is trusted here (trustpre Public)
 //@ assume func (chain *Chain) cosiAcceptedNodesListShuffle
 //@   modifies nothing
 //@   ensures forall i int :: 0 <= i && i < len(result) ==> result[i] != nil
@@ -38,12 +37,16 @@ package kernel
 // (d) back in the cache queue (unless the store returned an error).
 //@ func (chain *Chain) cosiSendAnnouncement
 //@   property C24
-//@   trustpre Gap asFinal IsPledging PayloadHash ConsensusThreshold
+//@   trustpre IsPledging PayloadHash ConsensusThreshold Public
+//@   trustpre quiet: Gap asFinal determineBestRound updateEmptyHeadRoundAndPersist startNewRoundAndPersist
 //@   requires CosiChainOK(chain) && AggsShape(chain) && VerifiersOK(chain) && !isnil(chain.persistStore)
 //@   requires m != nil && m.Snapshot != nil && m.data != nil && m.data.CN != nil && m.Snapshot.Timestamp < 9223372036854775808
 //@   requires chain.node.Peer != nil
+//@   requires [head-ref] chain.State != nil ==> chain.State.CacheRound != nil && chain.State.CacheRound.References != nil &&
+//@       storage.SHasRound(storage.StoreVer(chain.persistStore), chain.State.CacheRound.References.External) -- passed on to prepareAnnouncement
+//@   ignorepost Gap:roundok asFinal:closed determineBestRound updateEmptyHeadRoundAndPersist startNewRoundAndPersist:shape,next
 //@   maypanic
-//@   modifies chain.CosiAggregators, chain.CosiVerifiers, chain.CosiAggregators[..], chain.CosiVerifiers[..], m.Snapshot.RoundNumber, m.Snapshot.References, m.Snapshot.Hash, ghost bytes_cachequeue, ghost store_errors, ghost kernel_graph_state
+//@   modifies chain.CosiAggregators, chain.CosiVerifiers, chain.CosiAggregators[..], chain.CosiVerifiers[..], m.Snapshot.RoundNumber, m.Snapshot.References, m.Snapshot.Hash, ghost bytes_cachequeue, ghost store_errors, ghost kernel_graph_state, ghost storever, chain.State.RoundLinks[..], chain.node.chains.m[..], chain.State.CacheRound, chain.State.FinalRound, chain.State.RoundHistory, chain.State.RoundHistory[..cap], chain.node.GraphTimestamp, chain.FinalIndex, chain.FinalCount
 //@   ensures [no-loss] err == nil && StoreErrors(chain.node.persistStore) == old(StoreErrors(chain.node.persistStore)) ==>
 //@       (forall i int :: {old(m.Snapshot).Transactions[i]} 0 <= i && i < len(old(m.Snapshot).Transactions) ==>
 //@          Guarded(chain.CosiVerifiers, old(m.Snapshot), old(m.Snapshot).Transactions[i]) ||
